@@ -122,7 +122,7 @@ def run_pair_stream(st, tier, seed, judge):
             if why:
                 c = uvlib.parse_case(b)
                 c['model'] = fa[4]; c['why'] = why
-                if len(res['mism']) < 2000:
+                if len(res['mism']) < 2000000:      # no effective cap: every difference is classified
                     res['mism'].append(c)
                 else:
                     res['more'] = res.get('more', 0) + 1
@@ -223,7 +223,7 @@ def run_selfcheck_stream(st, tier, seed, judge):
             if r['crash']:
                 out['crashes'].append(r['crash'])
             tot['n'] += r['n']; tot['nontrivial'] += len(r['seen']); tot['distinct_nontrivial'] += len(r['seen'])
-            tot['mismatches'] += len(r['mism']); out['mism'] += r['mism'][:500]; keys |= r['keys']; out['samples'] += r['samples'][:1]
+            tot['mismatches'] += len(r['mism']); out['mism'] += r['mism']; keys |= r['keys']; out['samples'] += r['samples'][:1]
     if tot['n'] == 0 and not out['crashes']:
         out['crashes'].append('stream %s produced no cases' % st['name'])
     out['total'] = tot
@@ -539,8 +539,12 @@ PLANS = {
                 'large ones (up to 128 bits, widths that are not multiples of 4 / 8 included): posit hex_format -> parse and operator>>, cfloat '
                 'to_binary -> assign, fixpnt to_binary -> assign, integer hex and decimal strings -> parse must return the same encoding; decimal '
                 'output of integer and fixpnt is compared byte by byte with the exact expansion; random decimal / hexadecimal digit strings up to the '
-                'capacity of the type (+1 digit) must parse to that integer mod 2^nbits. non-trivial = all; distinct = distinct lines',
-        'assumptions': ['einteger/edecimal decimal output is covered by C14'],
+                'capacity of the type (+1 digit) must parse to that integer mod 2^nbits. The strings themselves (posit hex_format, cfloat and '
+                'fixpnt to_binary, integer to_hex) are compared byte for byte with the model strings, and the transcribed assign() parsers '
+                '(cf_assign, fx_assign: proved inverse to the printers for every width) are compared with cfloat::assign / fixpnt::assign on the '
+                'printed strings and on mutated ones (nibble marker inserted, one character replaced or deleted, a separator moved). '
+                'non-trivial = all; distinct = distinct lines',
+        'assumptions': ['einteger/edecimal decimal output is covered by C14', 'the posit text parser (std::regex + istringstream) and the fixpnt decimal branch (marked TBD in the library) are not transcribed; posit round trips are decided per case on the implementation'],
         'streams': [{'name': 'text_exh', 'driver': 'text_all', 'what': 'text forms, every encoding of the small configurations', 'exhaustive': {'quick': True, 'thorough': True},
                      'runs': {'quick': [dict(args=['--mode', 'exh'], shards=8)], 'thorough': [dict(args=['--mode', 'exh'], shards=8)]}},
                     {'name': 'text_rnd', 'driver': 'text_all', 'what': 'text forms, structured samples of the large configurations',
